@@ -18,6 +18,8 @@ pub struct Slicing {
     step: Option<InstructionWithStr>,
 }
 
+const LOWEST_BOUND: i64 = -i64::MAX;
+
 impl Slicing {
     pub fn create(
         lhs: InstructionWithStr,
@@ -98,7 +100,9 @@ impl Slicing {
             .map(Variable::into_int)
             .transpose()
             .unwrap()
-            .map(|i| i as isize);
+            // MIN_INT has no magnitude (slyce negates negative bounds); every bound
+            // below -len means the same as -len, so -MAX_INT stands in for it
+            .map(|i| i.max(LOWEST_BOUND) as isize);
         Ok(start)
     }
 }
